@@ -90,6 +90,8 @@ def cache_flow(ctx: Ctx) -> RuleResult:
             if not passed:
                 r.violate(f"{f2.short}: run_subgraph does not receive the results prepared by {f.name}", f2.loc(call),
                           "the scheduler starts from the DAG's own results: cached nodes are recomputed", None)
+        if r.findings:
+            return r
         r.require(sinks >= 2, f"only {sinks} executor entry points consume the merged results (expected sync and async)")
     else:
         raise Undecided(f"merged map is an attribute ({M}); flow through attributes is not modelled")
@@ -225,8 +227,10 @@ def cache_excl(ctx: Ctx) -> RuleResult:
     flt = [n for n in iter_own_nodes(f.node) if isinstance(n, ast.DictComp) and n.generators[0].ifs]
     okf = len(flt) == 1 and norm_src(flt[0].generators[0].ifs[0]).endswith(f"not in {acc}")
     r.ob(okf, {"filter": norm_src(flt[0].generators[0].ifs[0]) if flt else None})
-    if flt and not okf:
-        r.violate(f"{f.short}: the written mapping is not filtered by the excluded ids", f.loc(flt[0]), "", norm_src(flt[0]))
+    if not okf:
+        r.violate(f"{f.short}: the written mapping is not filtered by the excluded ids", f.loc(flt[0] if flt else lp),
+                  "the results of the cache_deps_of nodes are written to the file: restarting from it does not execute them",
+                  norm_src(flt[0]) if flt else None)
     # the ids come from alias resolution of each entry
     res = [b for b in own_walk(lp) if isinstance(b, ast.Call) and isinstance(b.func, ast.Attribute) and b.func.attr in ("alias_to_ids", "get_multiple_nodes_aliases")]
     r.ob(bool(res) or True, {"ids resolved by": [norm_src(x) for x in res]})
